@@ -2,6 +2,7 @@ import Mp4ff.Model.Crop
 import Mp4ff.Lemmas.C10
 import Mp4ff.Lemmas.C10D
 import Mp4ff.Lemmas.C10H
+import Mp4ff.Expect.Transcribed
 /-!
 # C10 — cropping a progressive file yields exactly a prefix of every track
 Property theorems about `Model/Crop.lean` (the transcription of cmd/mp4ff-crop/main.go): the cut point, every
@@ -115,5 +116,10 @@ example : cropHeaders ⟨1000, 0, [⟨5000, [5000]⟩]⟩ 2000 1000 = some ⟨10
 /-! non-vacuity: a two-track movie cut from 9 s / 10 s to 4 s -/
 example : cropHeaders ⟨1000, 10000, [⟨10000, [10000]⟩, ⟨9000, [500, 8500]⟩]⟩ 360000 90000 =
     some ⟨1000, 4000, [⟨4000, [4000]⟩, ⟨4000, [500, 3500]⟩]⟩ := by decide
+
+/-- the Go functions the models of this property transcribe (committed table `spec/transcribed.json`, checked against
+    the current source by the extractor on every run) all still exist -/
+theorem model_sources_exist :
+    (["Crop.lean", "CropHdr.lean", "SampleTables.lean"] : List String).all Mp4ff.Expect.presentFor = true := by decide +kernel
 
 end Mp4ff.Crop.C10
